@@ -1307,6 +1307,7 @@ int _vnadata_load_touchstone(vnadata_internal_t *vdip, FILE *fp,
 		    tps.tps_filename, tps.tps_line);
 		goto out;
 	    }
+	    free((void *)reference);	/* keyword given more than once */
 	    if ((reference = calloc(tps.tps_ports,
 			    sizeof(double complex))) == NULL) {
 		_vnadata_error(vdip, VNAERR_SYSTEM,
